@@ -167,6 +167,24 @@ static void judge(const char *modes, uint64_t c, const char *desc, const char *r
         (void) c;
 }
 
+/* evidence: one schedule of this worker written out (the first one with at least four context switches) */
+static void sample_schedule(const char *modes, uint64_t c)
+{
+        static int sampled;
+        if (sampled || ntrace < 8) return;
+        sampled = 1; clog_on = 1;
+        clog_title("%s schedule case %llu: %d threads make their first library call under the trap flag; injected verdict %s; calls: %s %s %s %s", modes, (unsigned long long) c, nthr,
+                   verdict_fail ? "fail" : "pass", kinds[0] == 0 ? "isal_self_tests" : kinds[0] == 1 ? "isal_aes_keyexp_128" : "isal_sha256_ctx_mgr_init",
+                   nthr > 1 ? (kinds[1] == 0 ? "isal_self_tests" : kinds[1] == 1 ? "isal_aes_keyexp_128" : "isal_sha256_ctx_mgr_init") : "", nthr > 2 ? (kinds[2] == 0 ? "isal_self_tests" : kinds[2] == 1 ? "isal_aes_keyexp_128" : "isal_sha256_ctx_mgr_init") : "",
+                   nthr > 3 ? (kinds[3] == 0 ? "isal_self_tests" : kinds[3] == 1 ? "isal_aes_keyexp_128" : "isal_sha256_ctx_mgr_init") : "");
+        for (int i = 0; i + 1 < ntrace && i < 60; i += 2) clog_event("after protocol instruction %d (mod 256): CPU handed to thread %d", sched_trace[i + 1], sched_trace[i]);
+        clog_event("observed: %llu single steps, %llu at protocol instructions; AES self-tests entered %d time(s), SHA %d time(s); verdict published at logical time %llu, self-tests left at %llu",
+                   (unsigned long long) gstep, (unsigned long long) pstep, n_aes, n_sha, (unsigned long long) publish_clk, (unsigned long long) t_selftest_exit);
+        for (int i = 0; i < nthr; i++) clog_event("observed: thread %d returned %d at logical time %llu after %llu of its own steps (%llu after publication)", i, rcs[i], (unsigned long long) ret_clk[i],
+                                                 (unsigned long long) steps_of[i], (unsigned long long) steps_after_publish[i]);
+        clog_on = 0;
+}
+
 static void mode_sched(void)
 {
         struct sigaction sa; memset(&sa, 0, sizeof sa);
@@ -195,6 +213,7 @@ static void mode_sched(void)
                         uint64_t h; run_schedule(c, desc, sizeof desc, &h);
                         cur_label[0] = 0;
                         judge("random", c, desc, rb);
+                        sample_schedule("random", c);
                         out_count("schedules", 1); out_count("schedule_steps", gstep);
                         feat(h);
                 }
@@ -217,6 +236,7 @@ static void mode_sched(void)
                         run_schedule(c, desc, sizeof desc, &h);
                         cur_label[0] = 0;
                         judge("systematic", c, desc, rb);
+                        sample_schedule("systematic", c);
                         out_count("schedules", 1); out_count("systematic_schedules", 1); out_count("schedule_steps", gstep);
                         feat(h);
                 }
@@ -316,6 +336,16 @@ static void mode_stress(void)
                 }
                 for (int k = 0; k < 4; k++) if (flip >> k & 1) *kat[k] ^= 1;
                 if ((int) *status_var != (verdict_fail ? 1 : 0)) { snprintf(key, sizeof key, "verdict-not-published stress"); out_viol("C17", key, rb, "status after the round is %u", *status_var); }
+                { static int sampled;
+                  if (!sampled && active_n >= 3) {
+                        sampled = 1; clog_on = 1;
+                        clog_title("stress round %llu: %d threads released together from a spinning barrier, status re-armed to NOT_DONE, injected verdict %s, %s self-test bodies", (unsigned long long) c, active_n,
+                                   verdict_fail ? "fail" : "pass", run_real ? "real" : "stub");
+                        clog_event("observed: AES self-tests entered %d time(s), SHA %d time(s); self-tests left at logical time %llu; status afterwards %u", n_aes, n_sha, (unsigned long long) t_selftest_exit, *status_var);
+                        for (int i = 0; i < active_n && i < 40; i++) clog_event("observed: thread %d (%s, start delay %d) returned %d at logical time %llu", i,
+                                kind_of[i] == 0 ? "isal_self_tests" : kind_of[i] == 1 ? "isal_aes_keyexp_128" : "isal_sha256_ctx_mgr_init", delay_of[i], rc_of[i], (unsigned long long) rclk_of[i]);
+                        clog_on = 0;
+                  } }
                 out_count("stress_rounds", 1); out_count("stress_thread_calls", (uint64_t) active_n);
                 out_max("max_threads_in_round", (uint64_t) active_n);
                 feat(mix64(0x57e, mix64((uint64_t) active_n, (uint64_t) verdict_fail * 2 + (uint64_t) (stub_spin > 400))));
